@@ -16,6 +16,16 @@ CHECKS = {
          "Every delivery order (up to the depth bound) of the blocks of a pre-mined tree and of confirm packets drawn from a token set (valid, duplicate, re-encoded, second-nonce, outsider, wrong-hash, two-signature packets, confirms carried in block bodies), plus the engine's own background tasks released as events, is executed on a fresh real node in 6 scenarios (1/3/4 deputies; chain, siblings, fork; observer and deputy). After every event: stable height monotone, new stable descends from the old one, stable blocks by height never change; at the end of every history: the stable block is signed by >= ceil(2n/3) distinct deputy node ids (recovered from header signature and stored confirms), head descends from stable.",
          "Block tree shapes and token alphabet are fixed (see evidence rule); depth 4 quick / 5 thorough; gated tasks released oldest-first; MineBlock by the node itself is not an event yet.",
          "DESIGN.md section 4 C03"),
+ "C04": ("model_checking",
+         "explicit-state BFS over block/restart/pool/mine histories on real nodes; blocks built by the real assembler in a block factory; per-branch ledger of signed payloads as reference model",
+         "Every history up to the depth bound of factory-built blocks (menu: T, T with re-encoded signature, box(T,U), T twice, T plus box, early-expiring V; at instants around the expiration window and the replay-cache pruning horizon; on any held parent by two different deputies), node restarts, and pool/mine/sibling-block events on a node that is a deputy, is run on fresh real nodes. After every history every branch of the node's chain is scanned: each signed payload (signing hash + signer set, incl. box sub-transactions) at most once, every executed tx inside [exp-1800, exp]; an honest block whose payloads are only on another fork must be accepted.",
+         "Depth 3 (linear/fork) and 4 (miner) quick, 4/4/5 thorough; one payload family T/U/V; single-deputy chain for the time-window scenario.",
+         "DESIGN.md section 4 C04"),
+ "C13": ("exploration",
+         "exhaustive grid enumeration of the real scheduling functions against a 25-line reference rotation",
+         "Full grid of deputy counts (1..7 quick, 1..17 thorough) x list variants x slot lengths x 16 heights around term boundaries x every parent miner (incl. non-deputies) x every target deputy x every second of 3 rounds with ms offsets {-1,0,1,500,999} plus slot edges after 10^3 and 10^6 rounds: GetCorrectMiner/VerifyMiner agree with the reference and accept exactly one deputy; distance functions are inverse; the window a deputy computes (GetNextMineWindow + miner.getSleepTime) is its earliest slot not yet ended; every whole-second stamp inside it is accepted for that deputy only.",
+         "TermDuration=10, InterimDuration=3; a mid-term parent that is not a deputy is recorded, not asserted; header times below 10^7 s (where GetCorrectMiner panics by design of its ms guard) are outside the statement's 'instants not before the parent'.",
+         "DESIGN.md section 4 C13"),
 }
 
 NOT_YET = "check not built yet in this round (design in DESIGN.md section 4); no technique switch intended"
